@@ -393,6 +393,45 @@ class CFG:
                     stack.append(m)
         return {self.nodes[i] for i in seen}
 
+    def reach_edges(self, start, edge_ok):
+        """nodes reachable from start following edges (a, b, label) for
+        which edge_ok(a, b, label) is true"""
+        starts = start if isinstance(start, (list, set, tuple)) else [start]
+        seen = set()
+        stack = list(starts)
+        while stack:
+            n = stack.pop()
+            if n.id in seen:
+                continue
+            seen.add(n.id)
+            for m, label in n.succ:
+                if m.id not in seen and edge_ok(n, m, label):
+                    stack.append(m)
+        return {self.nodes[i] for i in seen}
+
+    def coreachable(self, end, avoid=None):
+        """nodes from which `end` can be reached"""
+        seen = set()
+        stack = [end]
+        while stack:
+            n = stack.pop()
+            if n.id in seen:
+                continue
+            seen.add(n.id)
+            for m, label in n.pred:
+                if avoid is not None and avoid(m):
+                    continue
+                if m.id not in seen:
+                    stack.append(m)
+        return {self.nodes[i] for i in seen}
+
+    def between(self, a, b):
+        """nodes on some path from a to b that does not come back to a
+        (a and b included)"""
+        fwd = self.reachable(a, avoid=lambda m: m is a)
+        back = self.coreachable(b, avoid=lambda m: m is a)
+        return (fwd & back) | {a, b}
+
     def reachable_from_entry(self):
         return self.reachable(self.entry)
 
